@@ -1040,23 +1040,28 @@ impl<K: AsRef<Key>> ServerSequence<K> {
         Target: Composer,
     {
         let variables = Variables::new(now, fudge, TsigRcode::NOERROR, None);
-        let mac = if self.first {
-            self.first = false;
-            self.context
-                .first_answer(message.as_slice(), None, &variables)
+        // Sign on a copy of the running context: if the TSIG record does not
+        // fit into the message anymore, the sequence must be left as it was
+        // so that the caller can try again with a shorter message.
+        let mut context = self.context.context.clone();
+        context.update(message.as_slice());
+        if self.first {
+            variables.sign(self.key(), &mut context);
         } else {
-            self.context.signed_subsequent(
-                message.as_slice(),
-                None,
-                &variables,
-            )
-        };
+            variables.sign_timers(&mut context);
+        }
+        let mac = context.sign();
         // The MAC carried over into the digest of the next message is the
         // MAC as transmitted, i.e., after truncation (RFC 8945, section
         // 5.2.2.1). This is also what `ClientSequence` applies.
         let mac = &mac.as_ref()[..self.key().signing_len()];
+        self.key().complete_message(message, &variables, mac)?;
+
+        // The message now is signed. Start the digest of the next one.
+        self.first = false;
+        self.context.context = self.key().signing_context();
         self.context.apply_signature(mac);
-        self.key().complete_message(message, &variables, mac)
+        Ok(())
     }
 
     /// Returns a reference to the transaction’s key.
